@@ -115,11 +115,11 @@ func (w *textView) Handle(event term.Event) bool {
 func (w *textView) ScrollBy(delta int) {
 	w.MutateState(func(s *TextViewState) {
 		s.First += delta
-		if s.First < 0 {
-			s.First = 0
-		}
 		if s.First >= len(s.Lines) {
 			s.First = len(s.Lines) - 1
+		}
+		if s.First < 0 {
+			s.First = 0
 		}
 	})
 }
